@@ -3,8 +3,12 @@
 package main
 
 import (
+	gocmp "cmp"
 	"fmt"
+	"math"
+	"strings"
 	"sync/atomic"
+	"time"
 
 	"verif/mc"
 
@@ -174,6 +178,125 @@ func checkSeq(c seqCase) *mc.Failure {
 	})
 }
 
+// hugeCase describes a pair built by mc.HugePair.
+type hugeCase struct {
+	Kind string `json:"kind"`
+	N    int    `json:"n"`
+	Swap bool   `json:"swap,omitempty"`
+}
+
+// hugeLimit: a 65537 x 65537 table takes tens of seconds, not microseconds.
+const hugeLimit = 15 * time.Minute
+
+func checkHuge(h hugeCase) *mc.Failure {
+	a0, b0 := mc.HugePair(h.Kind, h.N)
+	if h.Swap {
+		a0, b0 = b0, a0
+	}
+	return mc.GuardTL("lcs-huge", h, hugeLimit, func() *mc.Failure {
+		a := append([]int(nil), a0...)
+		b := append([]int(nil), b0...)
+		eq := func(x, y int) bool { return x == y }
+		got := slice.LCS(a, b)
+		desc := fmt.Sprintf("huge inputs (%s, %d and %d elements)", h.Kind, len(a), len(b))
+		if !mc.EqInts(a, a0) || !mc.EqInts(b, b0) {
+			return mc.Failf(0, "%s: LCS modified its input", desc)
+		}
+		if !isSubseq(got, a, eq) || !isSubseq(got, b, eq) {
+			return mc.Failf(0, "%s: LCS result (%d elements) is not a common subsequence", desc, len(got))
+		}
+		if want := lcsLen(a, b, eq); len(got) != want {
+			return mc.Failf(0, "%s: LCS result has length %d, optimum is %d", desc, len(got), want)
+		}
+		return nil
+	})
+}
+
+// typedCase is a sequence of indices into one of the fixed typed alphabets.
+type typedCase struct {
+	Type string `json:"type"` // float64 | string
+	Idx  []int  `json:"idx"`
+}
+
+var floatAlpha = []float64{math.NaN(), math.Inf(-1), -1, math.Copysign(0, -1), 0, 1.5, math.Inf(1)}
+var stringAlpha = []string{"", "a", "B", "ab", "a\x00", "\xff"}
+
+// checkOrdered runs LIS and LNDS (the cmp.Ordered entry points) on a typed
+// sequence: the order is the one cmp.Compare defines (NaN below everything
+// and equal to itself, -0 equal to +0).
+func checkOrdered[T gocmp.Ordered](alpha []T, idx []int, bits func(T) string) *mc.Failure {
+	v := make([]T, len(idx))
+	for i, x := range idx {
+		v[i] = alpha[x]
+	}
+	show := func(s []T) string {
+		var parts []string
+		for _, x := range s {
+			parts = append(parts, bits(x))
+		}
+		return "[" + strings.Join(parts, " ") + "]"
+	}
+	orig := show(v)
+	for _, strict := range []bool{true, false} {
+		name, got := "LNDS", []T(nil)
+		if strict {
+			name = "LIS"
+			got = slice.LIS(v)
+		} else {
+			got = slice.LNDS(v)
+		}
+		if show(v) != orig {
+			return mc.Failf(0, "%s modified its input %s -> %s", name, orig, show(v))
+		}
+		j := 0
+		for _, x := range got { // subsequence by identity of representation
+			for j < len(v) && bits(v[j]) != bits(x) {
+				j++
+			}
+			if j == len(v) {
+				return mc.Failf(0, "%s(%s)=%s is not a subsequence of the input", name, orig, show(got))
+			}
+			j++
+		}
+		for i := 1; i < len(got); i++ {
+			d := gocmp.Compare(got[i-1], got[i])
+			if strict && d >= 0 || !strict && d > 0 {
+				return mc.Failf(0, "%s(%s)=%s is not ordered as cmp.Compare orders the element type", name, orig, show(got))
+			}
+		}
+		best := 0
+		l := make([]int, len(v))
+		for i := range v {
+			l[i] = 1
+			for k := 0; k < i; k++ {
+				d := gocmp.Compare(v[k], v[i])
+				if (d < 0 || !strict && d == 0) && l[k]+1 > l[i] {
+					l[i] = l[k] + 1
+				}
+			}
+			best = max(best, l[i])
+		}
+		if len(got) != best {
+			return mc.Failf(0, "%s(%s)=%s has length %d, optimum under cmp.Compare is %d", name, orig, show(got), len(got), best)
+		}
+	}
+	return nil
+}
+
+func checkTyped(c typedCase) *mc.Failure {
+	return mc.GuardT("lis-typed", c, func() *mc.Failure {
+		if c.Type == "string" {
+			return checkOrdered(stringAlpha, c.Idx, func(s string) string { return fmt.Sprintf("%q", s) })
+		}
+		return checkOrdered(floatAlpha, c.Idx, func(f float64) string {
+			if f == 0 && math.Signbit(f) {
+				return "-0"
+			}
+			return fmt.Sprint(f)
+		})
+	})
+}
+
 func main() {
 	mc.Main("C12",
 		mc.Harness{
@@ -230,6 +353,78 @@ func main() {
 					return mc.Failf(-1, "bad trace: %v", err)
 				}
 				return checkLCS(p)
+			},
+		},
+		mc.Harness{
+			Name: "lcs-huge", HangLimit: hugeLimit,
+			Explore: func(r *mc.Run) {
+				sizes := mc.Pick(r, []int{1023, 1024, 1025, 4095, 4096, 4097}, []int{1023, 1024, 1025, 4095, 4096, 4097, 16383, 16384, 16385, 32768, 65535, 65536, 65537})
+				var cases []hugeCase
+				for _, n := range sizes {
+					for _, k := range mc.HugeKinds {
+						if n > 5000 && (k == "periodic" || k == "lcg4") {
+							continue
+						}
+						cases = append(cases, hugeCase{k, n, false})
+						if k != "equal" && k != "change" {
+							cases = append(cases, hugeCase{k, n, true})
+						}
+					}
+				}
+				mc.ParallelFor(len(cases), r.Workers, func(i int) {
+					if r.Expired() {
+						return
+					}
+					if f := checkHuge(cases[i]); f != nil {
+						r.Violation(mc.Case{Harness: "lcs-huge", Trace: mc.J(cases[i]), Msg: f.Msg})
+					}
+				})
+				if r.Expired() {
+					r.NotExhaustive("tier budget reached")
+				}
+				n := int64(len(cases))
+				r.AddEval(n, n, n, n)
+				r.Bound("sizes", fmt.Sprint(sizes))
+				r.Bound("kinds", fmt.Sprint(mc.HugeKinds))
+				r.Rule("LCS on a fixed family of long pairs at sizes around powers of two (see mc.HugePair), both argument orders, against the two-row length oracle")
+				r.Sample(hugeCase{"blockswap", 4096, false})
+			},
+			Replay: func(c mc.Case) *mc.Failure {
+				var h hugeCase
+				if err := mc.Unmarshal(c.Trace, &h); err != nil {
+					return mc.Failf(-1, "bad trace: %v", err)
+				}
+				return checkHuge(h)
+			},
+		},
+		mc.Harness{
+			Name: "lis-typed",
+			Explore: func(r *mc.Run) {
+				var evals int64
+				for _, ty := range []struct {
+					name string
+					n, l int
+				}{{"float64", len(floatAlpha), mc.Pick(r, 5, 7)}, {"string", len(stringAlpha), mc.Pick(r, 5, 6)}} {
+					seqs := mc.AllSeqs(ty.n, ty.l)
+					mc.ParallelFor(len(seqs), r.Workers, func(i int) {
+						c := typedCase{ty.name, seqs[i]}
+						if f := checkTyped(c); f != nil {
+							r.Violation(mc.Case{Harness: "lis-typed", Trace: mc.J(c), Msg: f.Msg})
+						}
+					})
+					evals += int64(len(seqs))
+					r.Bound(ty.name, fmt.Sprintf("all sequences up to length %d over %d values", ty.l, ty.n))
+				}
+				r.AddEval(evals, 2*evals, 2*evals, evals)
+				r.Rule("LIS and LNDS (the cmp.Ordered entry points) on every sequence over NaN, -Inf, -1, -0, +0, 1.5, +Inf and over six strings; the order is cmp.Compare's")
+				r.Sample(typedCase{"float64", []int{5, 0, 4}})
+			},
+			Replay: func(c mc.Case) *mc.Failure {
+				var t typedCase
+				if err := mc.Unmarshal(c.Trace, &t); err != nil {
+					return mc.Failf(-1, "bad trace: %v", err)
+				}
+				return checkTyped(t)
 			},
 		},
 		mc.Harness{
